@@ -21,7 +21,8 @@ PROPS = {
     ),
     "C07": dict(
         engines=[dict(name="arith", quick=700, thorough=40000, shard=500, trivial_tags=[]),
-                 dict(name="gateway", quick=200, thorough=10000, shard=25, search=400, trivial_tags=["no-stable-rule"])],
+                 dict(name="gateway", quick=200, thorough=10000, shard=25, search=400, trivial_tags=["no-stable-rule"]),
+                 dict(name="ingress", quick=200, thorough=10000, shard=50, search=400, trivial_tags=[])],
         rule="as C01 (arith engine): the readiness target DesiredUpdatedReplicas returned by the real CalculateBatchContext is compared with what the knob "
              "left by the real UpgradeBatch admits",
         trusted=["exposed(kind, knob, n) as in C01"],
@@ -39,6 +40,17 @@ PROPS = {
         assumptions=["a rule's match list is non-empty (the HTTPRoute CRD defaults it to PathPrefix /)", "the user's own rules do not reference the canary Service",
                      "stable and canary Service names differ"],
         explanation="theorems over all rule lists; oracle booleans (exact_split etc.) are the same definitions the theorems are about",
+    ),
+    "C14": dict(
+        engines=[dict(name="ingress", quick=400, thorough=20000, shard=50, search=800, trivial_tags=[])],
+        rule="seeded generator of stable Ingresses (0-6 annotations incl. pre-existing canary/alb/mse keys, 1-3 rules with hosts, 1-3 paths to the stable Service, "
+             "other Services or resource backends, rules without http section) x class (nginx, aliyun-alb, higress, mse) x sequences of 1-3 steps (weights, header / "
+             "cookie / regex matches, query matches and header modifiers for mse), each step called 2-3 times, then finalise twice; the real provider runs on the fake "
+             "client through the real gopher-lua VM; the last step is also applied to a freshly created canary Ingress; distinct = distinct input JSON",
+        trusted=["the four .lua scripts are hand-modelled in clear-then-set normal form and tied to the files only by this differential run through the real VM",
+                 "labels/class/TLS of the Ingress and backend ports are compared through digests"],
+        assumptions=["alb and higress scripts are used with header matches only (a match without headers raises a script error in those classes: modelled as an error outcome)"],
+        explanation="history independence proved for all four classes through one generic clear-then-set theorem; path exactness proved for all Ingresses",
     ),
     "C20": dict(
         engines=[dict(name="convert", quick=900, thorough=45000, shard=300, trivial_tags=[])],
@@ -94,6 +106,15 @@ MANIFEST_TEXT = {
         note="Rules with an empty match list are outside the domain (CRD defaulting). After Finalise the stable backendRef weight is 1 rather than the user's "
              "original weight (F15, judged under C05, not C13). Sequences are checked on the implementation; the sequence theorem is per step.",
         design_ref="DESIGN.md section 9, C13"),
+    "C14": dict(
+        text="Proof: for every built-in class, every annotation map and every pair of steps, applying a step after another yields key-by-key the annotations of "
+             "applying it directly (one generic theorem about clear-then-set scripts, instantiated by showing that each class's assigned keys are cleared or always "
+             "assigned); the canary Ingress's paths are exactly the stable Service paths re-targeted, for every Ingress. The model of provider and scripts is compared "
+             "with the real EnsureRoutes/Finalise running the real .lua files in gopher-lua on generated Ingresses and step sequences, including a fresh-application "
+             "probe for history independence and a stable-Ingress-unchanged check. Three defects found this way were repaired (F25, F8, F26).",
+        note="The script models are tied to the .lua files by execution only (no Lua semantics in Coq). 'The stable Ingress is never modified' and 'finalise deletes the "
+             "canary Ingress' are checked on the implementation, the model has no write to the stable object at all.",
+        design_ref="DESIGN.md section 9, C14"),
     "C20": dict(
         text="Proof: for every v1alpha1 Rollout/BatchRelease of the modelled shape (optional blocks absent or present, any step list) the v1alpha1 -> v1beta1 -> "
              "v1alpha1 round trip yields an object with the same meaning, every canary-strategy v1beta1 Rollout restricted to v1alpha1-expressible fields survives "
